@@ -27,6 +27,7 @@ inductive Evo : St → St → Prop
   | refl (s : St) : Evo s s
   | data {db db' : DB} {h : Bool} : DataOnly db db' → Evo (db, h) (db', h)
   | checkout {db : DB} : Evo (db, false) (db.checkout, true)
+  | checkoutFail {db db' : DB} {k : FKind} : db.checkoutF = (db', some k) → Evo (db, false) (db', false)
   | disc {db : DB} {h : Bool} : Evo (db, h) (db.poolInvalidate.kill, false)
   | kill {db : DB} {h : Bool} : Evo (db, h) (db.kill, false)
   | trans {a b c : St} : Evo a b → Evo b c → Evo a c
@@ -98,8 +99,18 @@ theorem revalidate_E (c : Conn) : E c c.revalidate.1 := by
     · exact E.refl c
     · simp only [Bool.and_eq_true, Bool.not_eq_true'] at hc
       unfold E Conn.st
-      simp only [hc.2]
-      exact Evo.checkout
+      cases hx : c.db.checkoutF with
+      | mk db o =>
+        cases o with
+        | none =>
+          have hco : db = c.db.checkout := by
+            have := checkoutF_none hx
+            exact this
+          simp only [hc.2, hco]
+          exact Evo.checkout
+        | some k =>
+          simp only [hc.2]
+          exact Evo.checkoutFail hx
   · exact E.refl c
 
 theorem connProp_E (c : Conn) : E c c.connProp.1 := by
